@@ -160,6 +160,12 @@ MD_TEMPLATE = """# {title} for {n}
 
 Feeds {{{n}}} people; use a {{2 1/2}} litre pan and {{0.75}} cups of stock per {{3}} guests.
 
+Hard-wrapped prose: shape the mince into {{8 small
+patties}} about 10cm across, rest them for {{1 1/2
+hours}} and add {{0.25
+}} litres of water, then {{6}}
+spoons of oil.
+
     {q1}g flour
     {q2} eggs, beaten
     dough := knead(flour, eggs, {{1/2}} tsp salt)
@@ -197,12 +203,22 @@ def mdscale_case(seed: int) -> Case:
     # independent expectation for the title count and the prose values: exactly k times the written numbers
     from recipe_grid.renderer.html import render_number
     import re as _re
-    written = [n, n, Fraction(5, 2), 0.75, 3]
+    # ... including curly-brace expressions that span a soft line break (number on one line, its text / unit on the
+    # next; break just before the closing brace; break right after the expression)
+    written = [n, n, Fraction(5, 2), 0.75, 3, 8, Fraction(3, 2), 0.25, 6]
     for k in (k1, k2):
-        got_vals = _re.findall(r'<span class="rg-scaled-value">(.*?)</span>', compile_markdown(text).render(k), flags=_re.S)[:5]
+        html_k = compile_markdown(text).render(k)
+        got_vals = _re.findall(r'<span class="rg-scaled-value">(.*?)</span>', html_k, flags=_re.S)[:len(written)]
         want_vals = [render_number(v * k) for v in written]
         if got_vals != want_vals:
             viol = f"at factor {k} the title count / prose values show {got_vals}, exactly k times the written numbers is {want_vals}"
+            break
+        prose = "".join(_re.findall(r"<p>.*?</p>", html_k, flags=_re.S))
+        wrapped = ('rg-scaled-value">' + render_number(8 * k) + '</span> small\npatties about 10cm across',
+                   'rg-scaled-value">' + render_number(Fraction(3, 2) * k) + '</span>\nhours and add')
+        if "{" in prose or "}" in prose or not all(w in prose for w in wrapped):
+            viol = (f"at factor {k} a curly-brace expression spanning a line break in the prose is not rendered as a scaled "
+                    f"value followed by its text (literal braces left, or text changed)")
             break
     # every recipe block (not only the first) is scaled: the second block's "{2} spoons" value
     if viol is None:
